@@ -15,11 +15,15 @@ THEOREMS = [P + t for t in [
     "C18_delete_needs_prefixAbsent", "C18_rename_needs_prefixAbsent", "C18_rename_needs_prefix", "C18_rename_needs_newName",
     "C18_param_change_needs_distinctNames",
     "C18_rename_pinned_counterexample", "C18_delete_pinned_counterexample", "C18_metrics_pinned_counterexample"]]
-RULE = ("generated ODX documents (1-3 layers incl. inheritance, 1-5 services per layer with distinct or shared constant prefixes given by "
-        "CODED-CONST and/or PHYS-CONST parameters, 1-4 request parameters, 0-2 positive and 0-1 negative responses, 0-5 COMPARAM-REFs per layer "
+RULE = ("generated ODX documents (1-4 layers incl. inheritance: chains and layers with up to three PARENT-REFs carrying NOT-INHERITED-DIAG-COMMS / "
+        "-DOPS lists, later layers re-defining services / DOPs of earlier ones under the same short name; 1-5 services per layer with "
+        "distinct or shared constant prefixes given by "
+        "CODED-CONST and/or PHYS-CONST parameters, 1-4 request parameters, VALUE parameters typed by simple DOPs or by STRUCTUREs of static "
+        "size, 0-2 positive and 0-1 negative responses, 0-5 COMPARAM-REFs per layer "
         "with or without PROTOCOL-SNREF) loaded through the XML parser; every single edit add / delete / "
-        "rename of every service and every applicable attribute edit (byte position, bit length, coded value, semantic, data type, linked "
-        "DOP) of (a sample of) the parameters; plus structural edits (parameter/response added or removed, DOP changed, two edits at "
+        "rename of every service and every applicable attribute edit (byte position, bit length -- incl. the size of the STRUCTURE typing a "
+        "parameter --, coded value, semantic, data type, linked DOP / STRUCTURE) of (a sample of) the parameters, observed in the edited layer "
+        "and in every inheriting layer (which must report the edit, or nothing when it does not inherit the edited service); plus structural edits (parameter/response added or removed, DOP changed, two edits at "
         "once) for correspondence only; distinct = distinct (old spec, new spec, layer); non-trivial = the two layers differ")
 TRUSTED = ["model lean/OdxVerif/Model/Compare.lean is hand-written; tied to odxtools/cli/compare.py and _print_utils.print_dl_metrics by "
            "comparing the returned dictionaries (canonicalised to short names, sets sorted) and the rendered table rows",
@@ -28,6 +32,9 @@ TRUSTED = ["model lean/OdxVerif/Model/Compare.lean is hand-written; tied to odxt
            "the XML builder and the expected-report oracle in harness/compare_lib.py / props/c18.py (model-free: expectation is computed "
            "from the edit that was applied; the constant request prefix that decides the add/delete/rename envelope is computed from the "
            "spec (compare_lib.spec_prefix) as well as by the implementation, a case is claimed when either says 'not shared')",
+           "the inheritance rule used by the count / visibility oracle (compare_lib.visible_map: own objects + per PARENT-REF the parent's "
+           "objects minus that PARENT-REF's NOT-INHERITED names, highest-priority parent wins, own overrides) and the static size of a "
+           "STRUCTURE (compare_lib.dop_bits), both computed from the spec alone",
            "Rich table rendering (the table is rendered with a 300-column console and parsed back)"]
 ASSUMPTIONS = ["envelope: short names distinct within a layer, every service has a request (guaranteed by the loader); add/delete/rename are "
                "claimed for services whose constant request prefix is not shared with another service of the layer, rename additionally needs a "
@@ -45,8 +52,8 @@ def P_(name, kind="const", **kw):
     return d
 
 
-def gen_params(rng, dops, prefix, section):
-    """prefix: the constants leading the request: an int = CODED-CONST (8 bit) with that value, ["pc", value, dop name] = PHYS-CONST"""
+def gen_params(rng, dops, prefix, section, sdops=()):
+    """sdops: STRUCTUREs a VALUE parameter may be typed by; prefix: the constants leading the request: an int = CODED-CONST (8 bit) with that value, ["pc", value, dop name] = PHYS-CONST"""
     ps = []
     for i, v in enumerate(prefix):
         sem = "SERVICE-ID" if i == 0 and rng.random() < .5 else None
@@ -58,7 +65,9 @@ def gen_params(rng, dops, prefix, section):
     for i in range(n_more):
         r = rng.random()
         nm = f"p{i}"
-        if r < .5:
+        if r < .5 and sdops and rng.random() < .3:
+            ps.append(P_(nm, "value", dop=rng.choice(sdops)["name"], default=None, sem=rng.choice([None, None, "DATA"])))
+        elif r < .5:
             ps.append(P_(nm, "value", dop=rng.choice(dops)["name"], default=(rng.choice(VALS) if rng.random() < .3 else None),
                          sem=rng.choice([None, None, "DATA"])))
         elif r < .62:
@@ -92,13 +101,37 @@ def lead_of(svc):
     return None
 
 
-def gen_service(rng, name, dops, prefix):
-    s = {"id": name, "name": name, "req": gen_params(rng, dops, prefix, "req"), "pos": [], "neg": []}
+def gen_service(rng, name, dops, prefix, sdops=()):
+    s = {"id": name, "name": name, "req": gen_params(rng, dops, prefix, "req", sdops), "pos": [], "neg": []}
     for _ in range(rng.choice([0, 1, 1, 2])):
-        s["pos"].append(gen_params(rng, dops, [(lead_val(prefix[0]) + 0x40) & 0xFF] if prefix else [], "pos")[:3] or [P_("c0", val=0x40)])
+        s["pos"].append(gen_params(rng, dops, [(lead_val(prefix[0]) + 0x40) & 0xFF] if prefix else [], "pos", sdops)[:3] or [P_("c0", val=0x40)])
     if rng.random() < .4:
-        s["neg"].append(gen_params(rng, dops, [0x7F], "neg")[:3])
+        s["neg"].append(gen_params(rng, dops, [0x7F], "neg", sdops)[:3])
     return s
+
+
+def gen_struct(rng, name, dops):
+    """a STRUCTURE of static size: 1-3 members (constants, reserved bits, values typed by simple DOPs), some at an explicit
+    BYTE-POSITION, with or without BYTE-SIZE (>= the bytes the members span)"""
+    ms = []
+    for i in range(rng.randint(1, 3)):
+        r = rng.random()
+        if r < .5:
+            ms.append(P_(f"m{i}", "value", dop=rng.choice(dops)["name"], default=None))
+        elif r < .8:
+            ms.append(P_(f"m{i}", "const", val=rng.choice(VALS), bl=rng.choice([8, 16])))
+        else:
+            ms.append(P_(f"m{i}", "reserved", bl=rng.choice([4, 8, 16])))
+        if rng.random() < .2:
+            ms[-1]["bp"] = i + rng.randint(0, 2)
+    sd = {"name": name, "members": ms, "byte_size": None}
+    if rng.random() < .3:
+        sd["byte_size"] = (L.dop_bits({"dops": dops, "sdops": [sd]}, name) or 0) // 8 + rng.randint(0, 2)
+    return sd
+
+
+LEGAL_PARENTS = {"ECU-SHARED-DATA": (), "FUNCTIONAL-GROUP": ("ECU-SHARED-DATA",), "BASE-VARIANT": ("ECU-SHARED-DATA", "FUNCTIONAL-GROUP"),
+                 "ECU-VARIANT": ("ECU-SHARED-DATA", "FUNCTIONAL-GROUP", "BASE-VARIANT")}
 
 
 def gen_spec(rng, big=False):
@@ -109,12 +142,18 @@ def gen_spec(rng, big=False):
         bt = rng.choice(["A_UINT32", "A_UINT32", "A_INT32"])
         dops.append({"name": f"d{i}", "bt": bt, "bl": rng.choice([8, 8, 16, 32]), "phys": rng.choice([bt, bt, "A_UINT32", "A_INT32"]),
                      "unit": (rng.choice(units)["name"] if units and rng.random() < .5 else None)})
+    # STRUCTUREs of static size that VALUE parameters are typed by (half of the documents)
+    sdops = [gen_struct(rng, f"r{i}", dops) for i in range(rng.choice([0, 0, 1, 2, 3]))]
     cps = [f"CP_{c}" for c in "abc"][:rng.randint(0, 3)]
-    shape = rng.choice(["bv", "bv", "bv+ev", "esd+bv", "fg+bv+ev"] if big else ["bv", "bv", "bv", "bv+ev", "esd+bv", "fg+bv+ev"])
+    # a trailing * = every later layer draws its PARENT-REFs (mostly two or more) among the earlier layers; otherwise a chain
+    shape = rng.choice(["bv", "bv", "bv+ev", "esd+bv", "fg+bv+ev", "fg+bv+ev*", "esd+fg+bv*", "esd+fg+bv+ev*"] if big else
+                       ["bv", "bv", "bv", "bv+ev", "esd+bv", "fg+bv+ev", "fg+bv+ev*", "esd+fg+bv*", "esd+fg+bv+ev*"])
+    multi = shape.endswith("*")
     layers = []
+    spec = {"dops": dops, "sdops": sdops, "units": units, "comparams": cps, "layers": layers}
     kinds = {"bv": "BASE-VARIANT", "ev": "ECU-VARIANT", "esd": "ECU-SHARED-DATA", "fg": "FUNCTIONAL-GROUP"}
     prev = None
-    for tag in shape.split("+"):
+    for tag in shape.rstrip("*").split("+"):
         ln = tag.upper()
         nsvc = rng.randint(1, 5) if prev is None else rng.randint(0, 2)
         svcs = []
@@ -134,50 +173,73 @@ def gen_spec(rng, big=False):
                     prefix = [v]
                 if rng.random() < .4:                         # sub-function
                     prefix.append(["pc", k + 1, rng.choice(dops)["name"]] if sidkind != "const" and rng.random() < .5 else k + 1)
-            svcs.append(gen_service(rng, f"{ln}_S{k}", dops, prefix))
-        # the first layer defines all DOPs; every later layer inherits from the previous one
+            svcs.append(gen_service(rng, f"{ln}_S{k}", dops, prefix, sdops))
+        # the first layer defines all DOPs and structures
         L_ = {"name": ln, "kind": kinds[tag], "parent": prev, "own_dops": [d["name"] for d in dops] if prev is None else [],
+              "own_sdops": [d["name"] for d in sdops] if prev is None else [],
               "cprefs": [], "services": svcs, "structs": rng.choice([0, 0, 1, 2])}
+        if prev is not None and rng.random() < (.6 if multi else .3):
+            # a later layer has its own flavour of a service / its own copy of a DOP that an earlier layer defines under the same short name
+            earlier = [s_["name"] for l in layers for s_ in l["services"]]
+            if earlier and rng.random() < .8:
+                d = gen_service(rng, f"{ln}_D0", dops, [rng.choice(VALS)], sdops)
+                d["name"] = rng.choice(earlier)
+                if d["name"] not in {x["name"] for x in svcs}:
+                    svcs.insert(rng.randint(0, len(svcs)), d)
+            L_["dup_dops"] = rng.sample([d["name"] for d in dops], rng.randint(0, 2))
+        if multi and prev is not None:
+            # PARENT-REFs: a subset of the earlier layers (of kinds this layer may inherit from), mostly all of them
+            legal = [l for l in layers if l["kind"] in LEGAL_PARENTS[kinds[tag]]]
+            chosen = [l for l in legal if rng.random() < .8] or [rng.choice(legal)]
+            L_["parent"] = None
+            L_["parents"] = [{"name": l["name"], "ni_svcs": [], "ni_dops": []} for l in chosen]
+        refs = L_.get("parents") if L_.get("parents") is not None else ([{"name": prev, "ni_svcs": [], "ni_dops": []}] if prev else [])
+        # NOT-INHERITED-DIAG-COMMS / -DOPS per PARENT-REF, preferably short names that another PARENT-REF offers as well
+        for ref in refs:
+            for what, key in (("services", "ni_svcs"), ("dops", "ni_dops")):
+                if rng.random() >= (.6 if multi else .25):
+                    continue
+                here = sorted(L.visible_map(spec, ref["name"], what))
+                also = sorted({n for o in refs if o is not ref for n in L.visible_map(spec, o["name"], what)} & set(here))
+                pool = also if also and rng.random() < .7 else here
+                if pool:
+                    ref[key] = rng.sample(pool, min(len(pool), rng.randint(1, 2)))
+        if refs and any(r["ni_svcs"] or r["ni_dops"] for r in refs):
+            L_["parent"] = None
+            L_["parents"] = refs
         if tag != "esd" and cps:
             # the same comparam may be given per protocol (PROTOCOL-SNREF) and/or once without protocol
-            multi = rng.random() < .5
-            pairs = [[c, pr] for c in cps for pr in (PROTOS if multi else PROTOS[:1])]
+            multi_p = rng.random() < .5
+            pairs = [[c, pr] for c in cps for pr in (PROTOS if multi_p else PROTOS[:1])]
             L_["cprefs"] = rng.sample(pairs, rng.randint(0, min(len(pairs), 5)))
         layers.append(L_)
         prev = ln
-    return {"dops": dops, "units": units, "comparams": cps, "layers": layers}
+    return spec
 
 
 def reaches(layers, x, target):
-    by = {l["name"]: l for l in layers}
-    while x.get("parent"):
-        if x["parent"] == target:
-            return True
-        x = by[x["parent"]]
-    return False
+    return L.inherits_from({"layers": layers}, x["name"], target)
+
+
+def shadowed_exclusions(spec):
+    """number of (layer, kind, short name) where the name is NOT-INHERITED on one PARENT-REF but offered by another one of the same layer"""
+    n = 0
+    for l in spec["layers"]:
+        refs = L.parent_refs(l)
+        for what, key in (("services", "ni_svcs"), ("dops", "ni_dops")):
+            for ref in refs:
+                for name in ref.get(key) or []:
+                    n += any(name in L.visible_map(spec, o["name"], what) and name not in (o.get(key) or []) for o in refs if o is not ref)
+    return n
 
 
 # ------------------------------------------------------------------ expected counts (model-free)
 def visible(spec, lname, what):
-    """names visible in a layer after inheritance (child overrides parent by short name)"""
-    by = {l["name"]: l for l in spec["layers"]}
-    chain = []
-    x = by[lname]
-    while x is not None:
-        chain.append(x)
-        x = by.get(x.get("parent")) if x.get("parent") else None
-    seen = {}
-    for x in reversed(chain):
-        if what == "services":
-            for s in x["services"]:
-                seen[s["name"]] = 1
-        elif what == "dops":
-            for d in x.get("own_dops", []):
-                seen[d] = 1
-        else:
-            for c, proto in x.get("cprefs", []):
-                seen[(c, proto)] = 1
-    return len(seen)
+    """number of short names (services, DOPs) / (comparam, protocol) pairs a layer offers after inheritance: several
+    PARENT-REFs, NOT-INHERITED lists per PARENT-REF, child overrides parent by short name (compare_lib.visible_map)"""
+    if what in ("services", "dops"):
+        return len(L.visible_map(spec, lname, what))
+    return len(L.visible_comparams(spec, lname))
 
 
 # ------------------------------------------------------------------ one comparison case
@@ -190,12 +252,15 @@ def fmt_hex(v, bl):
     return f"0x{v:0{bl // 4}X}"
 
 
-def expected_rows(spec_old, p_old, p_new, attr):
+def expected_rows(spec_old, p_old, p_new, attr, spec_new=None):
     """the table rows the tool must show for a single attribute edit (Property, Old, New)"""
     if attr == "bytepos":
         return [["Byte position", str(p_old.get("bp")), str(p_new.get("bp"))]]
     if attr == "semantic":
         return [["Semantic", str(p_old.get("sem")), str(p_new.get("sem"))]]
+    if attr == "bitlen" and p_old["kind"] == "value":
+        # the parameter is the sole user of a STRUCTURE whose size changed: its bit length changed, through its (same-named) DOP
+        return [["Bit Length", str(L.dop_bits(spec_old, p_old["dop"])), str(L.dop_bits(spec_new, p_new["dop"]))], ["Linked DOP object", "", ""]]
     if attr == "bitlen":
         return [["Bit Length", str(p_old["bl"]), str(p_new["bl"])]]
     if attr == "value":
@@ -204,15 +269,16 @@ def expected_rows(spec_old, p_old, p_new, attr):
         return [["Data type", p_old.get("bt", "A_UINT32"), p_new.get("bt", "A_UINT32")]]
     if attr == "dop":
         d = {x["name"]: x for x in spec_old["dops"]}
-        o, n = d[p_old["dop"]], d[p_new["dop"]]
+        o, n = d.get(p_old["dop"]), d.get(p_new["dop"])        # None: a STRUCTURE (has neither unit nor physical type)
+        bo, bn = L.dop_bits(spec_old, p_old["dop"]), L.dop_bits(spec_old, p_new["dop"])
         rows = []
-        if o["bl"] != n["bl"]:
-            rows.append(["Bit Length", str(o["bl"]), str(n["bl"])])
+        if bo != bn:
+            rows.append(["Bit Length", str(bo), str(bn)])
         rows.append(["Linked DOP object", "", ""])
-        rows.append([" DOP name", o["name"], n["name"]])
-        if o.get("unit") and n.get("unit") and o["unit"] != n["unit"]:
+        rows.append([" DOP name", p_old["dop"], p_new["dop"]])
+        if o and n and o.get("unit") and n.get("unit") and o["unit"] != n["unit"]:
             rows.append(["  DOP unit name", o["unit"], n["unit"]])
-        if o["phys"] != n["phys"]:
+        if o and n and o["phys"] != n["phys"]:
             rows.append([" DOP physical data type", o["phys"], n["phys"]])
         return rows
     raise ValueError(attr)
@@ -231,7 +297,8 @@ def expectation(edit, dl_new, dl_old, spec_new=None, spec_old=None, lname=None, 
     short a prefix cannot move a case out of the envelope."""
     empty = {"new": [], "deleted": [], "renamed": [], "changed": []}
     kind = edit["kind"]
-    if kind == "self":
+    if kind in ("self", "unseen"):
+        # unseen: the edited service is not offered by this layer (NOT-INHERITED on every path, or overridden): nothing to report
         return empty, ""
 
     def prefix(dl, name):
@@ -283,6 +350,39 @@ def expectation(edit, dl_new, dl_old, spec_new=None, spec_old=None, lname=None, 
     return None, "structural"
 
 
+def seen_as(edit, spec_old, spec_new, obs, lname):
+    """how the single edit of an own service of layer `lname` shows in layer `obs` (= lname or a layer inheriting from it),
+    decided from the specs alone: 'clean' = exactly this edit; 'unseen' = `obs` does not offer the edited service (excluded on
+    every path / overridden by another layer's service of the same name) so nothing may be reported; 'mixed' = the edit
+    uncovers or hides another layer's service of the same short name (not a single edit from `obs`' point of view)"""
+    vo, vn = L.visible_map(spec_old, obs, "services"), L.visible_map(spec_new, obs, "services")
+    kind = edit["kind"]
+    org = lambda v, name: v[name][0] if name in v else None   # noqa
+    s = edit.get("service")
+    if kind == "add":
+        if s not in vo and org(vn, s) == lname:
+            return "clean"
+        return "unseen" if vo == vn else "mixed"
+    if kind == "delete":
+        if org(vo, s) == lname and s not in vn:
+            return "clean"
+        return "unseen" if org(vo, s) != lname and vo == vn else "mixed"
+    if kind == "rename":
+        r = edit["new_name"]
+        if org(vo, s) == lname and s not in vn and r not in vo and org(vn, r) == lname:
+            return "clean"
+        return "unseen" if vo == vn else "mixed"
+    if kind == "attr":
+        if org(vo, s) == lname and org(vn, s) == lname:
+            return "clean"
+        return "unseen" if org(vo, s) != lname and org(vn, s) != lname else "mixed"
+    return "mixed"
+
+
+def as_seen(edit, cls):
+    return {"kind": "unseen", "of": edit} if cls == "unseen" else edit
+
+
 def features_of(edit, dl_new):
     f = [edit["kind"]]
     if edit["kind"] == "attr":
@@ -306,7 +406,7 @@ def run_case(ctx, pend, fam, spec_old, spec_new, lname, edit, db_old=None, oracl
         return None
     impl = L.run_compare_layers(dl_new, dl_old)
     ctx.case((json.dumps(spec_old, sort_keys=True), json.dumps(spec_new, sort_keys=True), lname), nontrivial=edit["kind"] != "self")
-    ctx.histo("edit", edit["kind"] + (":" + edit["attr"] if edit["kind"] == "attr" else ""))
+    ctx.histo("edit", edit["kind"] + (":" + edit["attr"] + ("(structure)" if edit.get("structure") else "") if edit["kind"] == "attr" else ""))
     ctx.histo("services_in_layer", len(dl_old.services))
     if oracle:
         try:
@@ -415,7 +515,7 @@ def fresh_service(rng, spec, L_, shared):
         pcs = [x for x in leads if not isinstance(x, int)]
         # in a layer whose requests are identified by PHYS-CONSTs the new service mostly is, too
         prefix = [["pc", v, rng.choice(pcs)[2]]] if pcs and rng.random() < .7 else [v]
-    return gen_service(rng, f"{L_['name']}_N{k}", spec["dops"], prefix)
+    return gen_service(rng, f"{L_['name']}_N{k}", spec["dops"], prefix, spec.get("sdops") or ())
 
 
 def all_edits(rng, spec, lname, max_attr):
@@ -439,6 +539,9 @@ def all_edits(rng, spec, lname, max_attr):
         yield {"kind": "rename", "service": name, "new_name": name + "_R"}, s2
     attr_cases = [(k, loc, attr) for k in range(n) for loc in L.locs(L_["services"][k]) for attr in L.ATTR_EDITS]
     rng.shuffle(attr_cases)
+    # the sample always contains some edits of parameters typed by a STRUCTURE (size changed / re-linked), when there are any
+    on_struct = [c for c in attr_cases if c[2] in ("bitlen", "dop") and L.is_struct(spec, L.get_param(L_["services"][c[0]], c[1]).get("dop"))][:4]
+    attr_cases = on_struct + [c for c in attr_cases if c not in on_struct]
     done = 0
     for k, loc, attr in attr_cases:
         if done >= max_attr:
@@ -449,8 +552,11 @@ def all_edits(rng, spec, lname, max_attr):
         if not L.apply_attr_edit(s2, p_new, attr, rng):
             continue
         done += 1
-        yield {"kind": "attr", "attr": attr, "service": L_["services"][k]["name"], "loc": list(loc), "param": p_old["name"],
-               "rows": expected_rows(spec, p_old, p_new, attr)}, s2
+        e = {"kind": "attr", "attr": attr, "service": L_["services"][k]["name"], "loc": list(loc), "param": p_old["name"],
+             "rows": expected_rows(spec, p_old, p_new, attr, s2)}
+        if p_old["kind"] == "value" and (L.is_struct(spec, p_old["dop"]) or L.is_struct(s2, p_new["dop"])):
+            e["structure"] = True          # the parameter is typed by a STRUCTURE before and/or after the edit
+        yield e, s2
 
 
 def structural_edits(rng, spec, lname):
@@ -552,6 +658,9 @@ def run(ctx):
             ctx.count(f"unloadable-spec:{type(e).__name__}")
             continue
         ctx.histo("shape", "+".join(l["kind"] for l in spec["layers"]))
+        ctx.histo("max_parent_refs_of_a_layer", max(len(L.parent_refs(l)) for l in spec["layers"]))
+        ctx.histo("not_inherited_names_offered_by_another_parent", min(shadowed_exclusions(spec), 3))
+        ctx.histo("structures_typing_parameters", sum(1 for sd in spec.get("sdops", []) if L.users_of(spec, sd["name"])))
         metrics_case(ctx, pend, spec, db)
         # self comparison of every layer and of the database
         for dl in db.diag_layers:
@@ -565,18 +674,23 @@ def run(ctx):
             ctx.histo("request_ids_of_layer", "+".join(sorted(leads)))
             children = [x["name"] for x in spec["layers"] if reaches(spec["layers"], x, lname)]
             for k, (edit, s2) in enumerate(all_edits(rng, spec, lname, max_attr)):
-                db_new = run_case(ctx, pend, edit["kind"], spec, s2, lname, edit, db)
+                cls0 = seen_as(edit, spec, s2, lname, lname)
+                ctx.histo("edit_seen_in_own_layer", cls0)
+                db_new = run_case(ctx, pend, edit["kind"], spec, s2, lname, as_seen(edit, cls0), db, oracle=cls0 != "mixed")
                 if db_new is None:
                     continue
-                # layers inheriting from the edited one see the same single edit
+                # layers inheriting from the edited one see the same single edit -- unless they do not inherit the edited service
                 for c in children:
-                    run_case(ctx, pend, "inherited", spec, s2, c, edit, db, oracle=(edit["kind"] in ("add", "delete", "rename", "attr")), db_new=db_new)
+                    cls = seen_as(edit, spec, s2, c, lname)
+                    ctx.histo("edit_seen_in_inheriting_layer", cls)
+                    run_case(ctx, pend, "inherited", spec, s2, c, as_seen(edit, cls), db, oracle=cls != "mixed", db_new=db_new)
                 if k % 4 == 0 or big:
                     exp, _ = (None, None)
                     try:
                         dl_old = next(d for d in db.diag_layers if d.short_name == lname)
                         dl_new = next(d for d in db_new.diag_layers if d.short_name == lname)
-                        exp, _ = expectation(edit, dl_new, dl_old, s2, spec, lname)
+                        if cls0 != "mixed":
+                            exp, _ = expectation(as_seen(edit, cls0), dl_new, dl_old, s2, spec, lname)
                     except Exception:  # noqa
                         exp = None
                     lay = None
